@@ -214,7 +214,9 @@ func VReplayDsm(task engine.SeqTask) (res engine.SeqResult) {
 	}
 	chk.checkDsm(p, st, allNames) // registers S's internal id
 	chk.Viol = nil
+	refused := false // the last operation was a rename the manager had to refuse
 	for i, raw := range task.Hist {
+		refused = false
 		var op VOp
 		if err := json.Unmarshal(raw, &op); err != nil {
 			res.HarnessEr = err.Error()
@@ -280,9 +282,17 @@ func VReplayDsm(task engine.SeqTask) (res engine.SeqResult) {
 			}
 		case "rename":
 			_, toExists := h.M.Datasets[op.To]
-			if !exists || toExists {
+			if !exists {
 				res.Skip, res.Key = true, "skip"
 				return
+			}
+			if toExists {
+				// a rename onto a name that is taken has to be refused and to change nothing
+				if _, err := w.Dsm.UpdateDataset(h.DsName(op.DS), &UpdateDatasetConfig{ID: h.DsName(op.To)}); err == nil {
+					chk.fail("C07:rename-onto-existing-accepted", fmt.Sprintf("renaming %s to the existing name %s was accepted", op.DS, op.To), nil)
+				}
+				refused = true
+				break
 			}
 			if _, err := w.Dsm.UpdateDataset(h.DsName(op.DS), &UpdateDatasetConfig{ID: h.DsName(op.To)}); err != nil {
 				chk.fail("C07:rename-rejected", "rename rejected: "+err.Error(), nil)
@@ -406,6 +416,10 @@ func VReplayDsm(task engine.SeqTask) (res engine.SeqResult) {
 		hs = append(hs, fmt.Sprintf("cont:%s:%d", st.contDS, st.contSeen))
 	}
 	res.Key = h.Canon(append(append([]string{}, p.IDs...), "e4"), vLiveNames(h), strings.Join(liveDesc, ",")+"|dead:"+strings.Join(deadKeys, ",")+"|"+strings.Join(hs, ",")+"|"+h.CatalogueDigest())
+	if refused {
+		// a refused rename is meant to change nothing: keep the state behind it apart (what it leaves in memory is not in the key)
+		res.Key += "|just-refused"
+	}
 	// a restart is meant to change nothing: mark the state right behind it, or the search would never go on from there
 	if n := len(task.Hist); n > 0 {
 		var lo struct {
@@ -610,7 +624,9 @@ func VReplayCat(task engine.SeqTask) (res engine.SeqResult) {
 	pubNs := map[string][]string{}
 	chk := &VCheck{H: h}
 	var keyParts []string
+	refusedCat := false
 	for i, raw := range task.Hist {
+		refusedCat = false
 		var op VOp
 		_ = json.Unmarshal(raw, &op)
 		last := i == len(task.Hist)-1
@@ -645,9 +661,17 @@ func VReplayCat(task engine.SeqTask) (res engine.SeqResult) {
 			h.M.Delete(op.DS)
 		case "rename":
 			_, toExists := h.M.Datasets[op.To]
-			if !exists || toExists {
+			if !exists {
 				res.Skip, res.Key = true, "skip"
 				return
+			}
+			if toExists {
+				// a rename onto a name that is taken has to be refused and to change nothing
+				if _, err := w.Dsm.UpdateDataset(h.DsName(op.DS), &UpdateDatasetConfig{ID: h.DsName(op.To)}); err == nil {
+					chk.fail("C19:rename-onto-existing-accepted", fmt.Sprintf("renaming %s to the existing name %s was accepted", op.DS, op.To), nil)
+				}
+				refusedCat = true
+				break
 			}
 			if _, err := w.Dsm.UpdateDataset(h.DsName(op.DS), &UpdateDatasetConfig{ID: h.DsName(op.To)}); err != nil {
 				chk.fail("C19:rename-rejected", err.Error(), nil)
@@ -738,6 +762,9 @@ func VReplayCat(task engine.SeqTask) (res engine.SeqResult) {
 		}
 	}
 
+	if refusedCat {
+		res.Key += "|just-refused"
+	}
 	res.Viol = chk.Viol
 	res.Checks = chk.Checks
 	res.Outcome = res.Key[:8]
@@ -891,7 +918,7 @@ func init() {
 		pi := func(n string) int { return model.PoolIndex(pool, n) }
 		alpha := []VOp{
 			{K: "create", DS: "A"}, {K: "create", DS: "A", N: 1}, {K: "create", DS: "B", N: 2}, {K: "create", DS: "B"},
-			{K: "delete", DS: "A"}, {K: "delete", DS: "B"}, {K: "rename", DS: "A", To: "B"},
+			{K: "delete", DS: "A"}, {K: "delete", DS: "B"}, {K: "rename", DS: "A", To: "B"}, {K: "rename", DS: "B", To: "A"},
 			{K: "batch", DS: "A", Ents: []VEnt{{"e1", pi("v1")}}},
 			{K: "batch", DS: "A", Ents: []VEnt{{"e1", pi("v2")}, {"e2", pi("r1")}, {"e1", pi("dv1")}}},
 			{K: "batch", DS: "B", Ents: []VEnt{{"e1", pi("v1")}, {"e1", pi("v1")}}},
